@@ -84,6 +84,8 @@ fn gen_indic_model(rng: &mut Rng) -> Model {
             w.cons = if rng.chance(0.5) { Uuid::nil() } else { uuid(rng) };
         }
     }
+    // same surfaces, outlines with a redundant vertex or another start corner
+    crate::gen::model::vary_outlines(rng, &mut m, 0.1);
     m
 }
 
